@@ -179,6 +179,9 @@ def run(ctx):
             if crit == 'rr+' and fmt == 'linop':
                 fmt = 'dense'
             x0 = None if rng.random() < 0.4 else np.array([rng.uniform(-1, 1) for _ in range(n)]).astype(b.dtype)
+            if crit == 'rr+' and (x0 is None or rng.random() < 0.6):
+                # 'rr+' depends on ||x_k||: a guess far from the solution makes the threshold move along the iteration
+                x0 = (10.0 ** rng.choice([2, 3])) * np.array([rng.uniform(-1, 1) for _ in range(n)]).astype(b.dtype)
             base = dict(solver=name, criteria=crit, n=n, complex=cplx, format=fmt, M=useM, A=[[complex(v) for v in r] for r in Ad] if cplx else Ad.tolist(),
                         b=[complex(v) for v in b] if cplx else b.tolist(), x0=None if x0 is None else [complex(v) for v in x0])
             ctx.mark(base)
